@@ -23,7 +23,10 @@ RULE = ('C12.roundtrip: Hypothesis draws lists of 1-8 FITS-representable pixel '
         'Oracles: same classes, geometry identical (floats exactly, angles to '
         '8 eps after the column\'s unit unification), exclude flag, component '
         'numbers kept where given and fresh + pairwise distinct otherwise, '
-        'parse(ser(P1)) == P1, file == in-memory, skipped members warned and '
+        'parse(ser(P1)) == P1, parsed regions that are then EDITED (include '
+        'flipped / deleted, component deleted / set, centre moved, radius '
+        'set) serialise as what they now are, file == in-memory, skipped '
+        'members warned and '
         'the remaining rows equal to the table of the list without them. '
         'C12.read_forms: hand-built tables in box / rectangle / rotrectangle / '
         '!-prefixed notation. Non-trivial: >= 2 different shapes with '
@@ -88,6 +91,7 @@ def case(draw):
     bad = draw(st.lists(unsupported(), max_size=2))
     pos = draw(st.lists(st.integers(0, 8), min_size=2, max_size=2))
     return {'regions': out, 'bad': bad, 'pos': pos,
+            'edits': draw(st.lists(st.integers(0, 6), min_size=1, max_size=8)),
             'via_file': draw(st.booleans()),
             'ext': draw(st.sampled_from(['.fits', '.fit', '.fts']))}
 
@@ -221,7 +225,67 @@ class RoundTrip(Relation):
                   'fixed point | parse(serialize(P1)) != P1',
                   lambda: next((f'{a!r} {dict(a.meta)} vs {b!r} {dict(b.meta)}'
                                 for a, b in zip(P1, P2) if not a == b), ''))
+        # parsed regions are ordinary regions: edited, they serialise as
+        # what they NOW are
+        E = list(Regions.parse(t2, format='fits'))
+        kinds = sp.get('edits') or [0]
+        done = [lab for i, r in enumerate(E)
+                for lab in [_edit_parsed(r, kinds[i % len(kinds)], i)] if lab]
+        if done:
+            ctx.label(*{'edit:' + d for d in done})
+            PE = Regions.parse(Regions(E).serialize(format='fits'),
+                               format='fits')
+            ctx.check(len(PE) == len(E), 'edited | count changes')
+            given = [r.meta.get('component') for r in E]
+            got = [r.meta.get('component') for r in PE]
+            for A, B in zip(E, PE):
+                nm = type(A).__name__
+                ctx.check(type(A) is type(B), f'{nm} | edited: class changes')
+                cmp_region(ctx, f'edited {nm}', A, B)
+                ctx.check(bool(A.meta.get('include', True))
+                          == bool(B.meta.get('include', True)),
+                          f'{nm} | edited: exclude flag of an edited parsed '
+                          'region is not the one it now has',
+                          f"{A.meta.get('include', 'absent')!r} -> "
+                          f"{B.meta.get('include', 'absent')!r}")
+            if any(g is not None for g in given):
+                ctx.check(all(b == g for g, b in zip(given, got)
+                              if g is not None),
+                          'edited | component number of an edited parsed '
+                          'region not preserved', f'{given} -> {got}')
+                fresh = [b for g, b in zip(given, got) if g is None]
+                ctx.check(all(isinstance(b, (int, np.integer)) for b in fresh)
+                          and len(set(fresh)) == len(fresh)
+                          and not (set(fresh) & {g for g in given
+                                                 if g is not None}),
+                          'edited | fresh component numbers are not distinct '
+                          'integers', f'{given} -> {got}')
         ctx.nontrivial(nt)
+
+
+def _edit_parsed(reg, kind, i):
+    """Edit a parsed FITS region in place; returns a label or None."""
+    m = reg.meta
+    if kind == 1:
+        m['include'] = not bool(m.get('include', True))
+        return 'flip include'
+    if kind == 2 and 'include' in m:
+        del m['include']
+        return 'del include'
+    if kind == 3 and 'component' in m:
+        del m['component']
+        return 'del component'
+    if kind == 4:
+        m['component'] = 100 + i
+        return 'set component'
+    if kind == 5 and hasattr(reg, 'center'):
+        from regions import PixCoord
+        reg.center = PixCoord(reg.center.x + 2.5, reg.center.y - 1.25)
+        return 'move center'
+    if kind == 6 and hasattr(reg, 'radius'):
+        reg.radius = reg.radius * 1.5 + 0.25
+        return 'set radius'
+    return None
 
 
 def _scratch():
